@@ -230,6 +230,8 @@ func slotAlts() []slotAlt {
 		{label: "rec-array-pointer", typ: "Quad", declA: "type Quad [4]*Quad\n", local: true},
 		{label: "rec-array-mutual", typ: "ArrA", declA: "type ArrA [2]*ArrB\n\ntype ArrB [3]*ArrA\n", local: true},
 		// a date is a named time.Time whose name contains "date", in any case and anywhere in the name
+		// an instance of a generic struct met while another instance of the same generic is analysed
+		{label: "Pair[Pair[int]]", typ: "Pair[Pair[int]]", declB: "type Pair[T any] struct {\n\tA, B T\n}\n", local: true},
 		{label: "BirthDate", typ: "BirthDate", declB: "type BirthDate time.Time\n" + birthCompanions, local: true},
 	}
 	return l
